@@ -622,6 +622,21 @@ func storeCrash(t *testing.T, tp *simrt.Tape, cfg simrt.Config, sc *storeScenari
 				}
 				h.viol(cl, disc, "after a kill during save (%s) the definition of %q holds %s: %d bytes; old text %d bytes, new text %d bytes", detail, name, what, len(got), len(oldText), len(newText))
 			}
+			// a later save is not disturbed by whatever the killed one left behind
+			if exists && chance(tp, 2, 3) {
+				h.marker++
+				follow, _ := storeText(pick(tp, txValid, txValid, txValidSched, txValidBig), h.marker)
+				var r2 apiResp
+				inProc(w, "server2", func() { r2 = newAPIServer().action(name, act("save"), follow, "", "", "") })
+				got2, _ := fsOf(w).GetFile(dagFile(name))
+				bump(out, "save_after_killed_save")
+				if !r2.ok() {
+					h.viol("save-after-crash-rejected", disc, "a valid save of %q after a killed save (%s) was answered %d %s", name, detail, r2.Code, r2.Msg)
+				} else if string(got2) != follow {
+					h.viol("save-after-crash-corrupt", disc+"/"+classify(got2, []byte(follow)), "after a killed save (%s) a later save of %d bytes was answered %d but the definition of %q holds %d bytes (%s)", detail, len(follow), r2.Code, name, len(got2), diffHead(string(got2), follow))
+				}
+				got = got2
+			}
 			// every other DAG and all histories are untouched
 			h.m.text[name] = string(got)
 			h2 := *h
